@@ -594,3 +594,36 @@ for _pid in ("C01", "C05", "C08", "C09", "C20", "C03", "C07"):
     PROPS[_pid]["oracle_fields"] = PROPS[_pid]["oracle_fields"] + ["nm0", "nm1", "nm2"]
 PROPS["C05"]["explanation"] += (" Oracle for nested contents: for Map<_,Orswot> replicas whose history stayed inside the proved region (causal op-only delivery, well-formed log; tracked by the driver) the driver prints the "
                                 "nested members and their remove contexts predicted by E2 from the knowledge set (fields nm0..nm2) and the implementation is compared with them after every command.")
+
+# --------------------------------------------------------------------------------------------
+# wide-scope profiles (harness/src/gen.rs: wide): more replicas/actors, larger domains and batches, longer histories, numbers beyond
+# 32 / 53 bits, deep identifiers, long lists – what the dense small-scope profiles cannot reach however many cases they run
+# --------------------------------------------------------------------------------------------
+W = dict(orswot=dict(name="orswot_wide", quick=150, thorough=3000), mvreg=dict(name="mvreg_wide", quick=150, thorough=3000),
+         map=dict(name="map_wide", quick=150, thorough=3000), lattice=dict(name="lattice_wide", quick=300, thorough=6000),
+         vclock=dict(name="vclock_wide", quick=100, thorough=2000), list=dict(name="list_wide", quick=60, thorough=1000),
+         glist=dict(name="glist_wide", quick=100, thorough=2000), ident=dict(name="ident_wide", quick=2000, thorough=40000))
+for _pid, _ws in dict(C01=["orswot", "mvreg", "lattice", "vclock", "map", "list", "glist"], C02=["orswot", "mvreg", "lattice", "vclock", "map", "glist"],
+                      C03=["orswot", "mvreg", "lattice", "vclock", "map", "glist"], C04=["orswot"], C05=["map"], C06=["mvreg"],
+                      C07=["orswot", "mvreg", "map"], C08=["orswot", "mvreg", "lattice", "map"], C09=["orswot", "mvreg", "lattice", "map", "list", "glist"],
+                      C10=["vclock"], C11=["lattice"], C12=["list"], C13=["list", "glist"], C14=["ident"], C16=["vclock", "list", "map"],
+                      C17=["map", "lattice"], C18=["vclock"], C19=["lattice", "mvreg", "list"], C20=["orswot", "mvreg", "lattice", "map"]).items():
+    PROPS[_pid]["profiles"] = PROPS[_pid]["profiles"] + [W[w] for w in _ws]
+
+# --------------------------------------------------------------------------------------------
+# system-level execution model (Spec/SysOrswot.lean, Spec/SysMap.lean): ops are only ever created by the API from replica states;
+# LogWF / Reach / NLogWF / ReachC are INVARIANTS of every run, so the theorems hold with no well-formedness hypothesis
+# --------------------------------------------------------------------------------------------
+_SYS_O = ["Crdt.Sys." + t for t in ["run_logWF", "run_reach", "run_own_known", "run_contig", "run_dot_unique", "run_converge", "run_converge_later", "run_state_eq_spec",
+                                     "run_member_iff", "run_merge_comm", "run_merge_assoc", "run_merge_idem", "run_merge_is_union", "run_dup_noop", "run_stale_noop",
+                                     "run_fresh_dot", "run_element_rm_clock", "run_rm_ctx_covers_only_seen", "run_no_pending_residue"]]
+_SYS_M = ["Crdt.SysMap." + t for t in ["run_logWF", "run_reach", "run_dots_unique", "run_key_present_iff", "run_get_rm_clock", "run_keys_converge", "run_fresh_dot",
+                                        "run_nlogWF", "runC_reachC", "runC_nested_member_iff", "runC_key_remove_wipes_seen", "runC_unseen_add_survives",
+                                        "runC_nested_reads_converge", "runC_generated_ctxOk"]]
+for _pid in ("C01", "C02", "C03", "C04", "C05", "C07", "C09", "C20"):
+    PROPS[_pid]["lean_targets"] = PROPS[_pid]["lean_targets"] + ["CrdtModel.Props.SysOrswot", "CrdtModel.Props.SysMap"]
+    PROPS[_pid]["required_theorems"] = PROPS[_pid]["required_theorems"] + _SYS_O + _SYS_M
+    PROPS[_pid]["explanation"] += (" System level (Props/SysOrswot.lean, Props/SysMap.lean): a linear-time model in which every op is produced by the API (read -> derive ctx -> op -> apply locally) from the issuing replica's "
+                                   "current state, delivered under the per-actor discipline, merged between replicas and saved states; LogWF, Reach-derivability, 'own ops known', positive contiguous counters (and, for Map<K,Orswot>, "
+                                   "NLogWF and – in the causal op-only sub-system – ReachC) are proved INVARIANTS of every run, so the Orswot / Map key-level / nested-Orswot theorems hold for every execution with no well-formedness hypothesis (run_*).")
+PROPS["C04"]["assumptions"] = ["each actor edits at one replica (built into the system model Sys.Run, where LogWF is a theorem: run_logWF); for the Reach-level statements LogWF is a hypothesis"]
